@@ -2,9 +2,9 @@
 package c11
 
 import (
-	"regexp"
 	"encoding/json"
 	"fmt"
+	"regexp"
 	"sort"
 	"strings"
 
@@ -35,6 +35,13 @@ type modset struct {
 	Name   string            `json:"name"`
 	Mods   map[string]string `json:"mods"`
 	Expect string            `json:"expect"` // ok | error | any
+}
+
+// setFeatures: the features the caller enables ("module:feature") for the sets named here; none for the others
+var setFeatures = map[string][]string{
+	"case:modules:feature-states":       {"Acme:f"},
+	"case:modules:feature-states:other": {"acme:f", "acme:g"},
+	"case:features-in-one-module":       {"a:f"},
 }
 
 // ---------------------------------------------------------------- generator
@@ -176,6 +183,8 @@ func importSets() []modset {
 	}
 }
 
+const modX = "module x { namespace \"urn:x\"; prefix x; typedef tx { type int8; } }"
+
 func includeSets() []modset {
 	mod := func(incs ...string) string {
 		var b strings.Builder
@@ -199,6 +208,22 @@ func includeSets() []modset {
 		{"include:one", map[string]string{"a": mod("s1"), "s1": sub("s1", "a", " container cs1 { leaf x { type string; } }")}, "ok"},
 		{"include:two", map[string]string{"a": mod("s1", "s2"), "s1": sub("s1", "a", " container cs1 { leaf x { type string; } }"), "s2": sub("s2", "a", " typedef ts { type int8; } container cs2 { leaf y { type ts; } }")}, "ok"},
 		{"include:nested", map[string]string{"a": mod("s1", "s2"), "s1": sub("s1", "a", " container cs1 { leaf x { type string; } }", "s2"), "s2": sub("s2", "a", " grouping gs { leaf z { type string; } }")}, "ok"},
+		// the module includes s1 only; s2 is reached through s1 (RFC 6020 asks the module to include all
+		// its submodules: whether this compiles is not settled here, that the verdict is always the same is)
+		{"include:nested-only", map[string]string{"a": mod("s1"), "s1": sub("s1", "a", " container cs1 { uses gs; }", "s2"), "s2": sub("s2", "a", " grouping gs { leaf z { type string; } }")}, "any"},
+		{"include:nested-only:import-below", map[string]string{"a": mod("s1"), "s1": sub("s1", "a", " container cs1 { uses gs; }", "s2"), "s2": sub("s2", "a", " import x { prefix x; } grouping gs { leaf z { type x:tx; } }"),
+			"x": "module x { namespace \"urn:x\"; prefix x; typedef tx { type int8; } }"}, "any"},
+		{"include:nested-twice:import-below", map[string]string{"a": mod("s1"), "s1": sub("s1", "a", " container cs1;", "s2"), "s2": sub("s2", "a", " container cs2;", "s3"), "s3": sub("s3", "a", " import x { prefix x; } container cs3 { leaf z { type x:tx; } }"),
+			"x": "module x { namespace \"urn:x\"; prefix x; typedef tx { type int8; } }"}, "any"},
+		// a prefix that only an included submodule imports, used one or two levels above that submodule
+		// (ill-formed: whoever uses a prefix has to import it; accepted or refused, but always the same)
+		{"include:import-used-above:module", map[string]string{"a": strings.Replace(mod("s1"), " container ca {", " leaf u { type x:tx; } container ca {", 1), "s1": sub("s1", "a", " import x { prefix x; } container cs1;"), "x": modX}, "any"},
+		{"include:import-used-above:nested:module", map[string]string{"a": strings.Replace(mod("s1"), " container ca {", " leaf u { type x:tx; } container ca {", 1), "s1": sub("s1", "a", " container cs1;", "s2"), "s2": sub("s2", "a", " import x { prefix x; } container cs2;"), "x": modX}, "any"},
+		{"include:import-used-above:nested:module-includes-both", map[string]string{"a": strings.Replace(mod("s1", "s2"), " container ca {", " leaf u { type x:tx; } container ca {", 1), "s1": sub("s1", "a", " container cs1;", "s2"), "s2": sub("s2", "a", " import x { prefix x; } container cs2;"), "x": modX}, "any"},
+		{"include:import-used-above:nested:submodule", map[string]string{"a": mod("s1"), "s1": sub("s1", "a", " container cs1 { leaf u { type x:tx; } }", "s2"), "s2": sub("s2", "a", " import x { prefix x; } container cs2;"), "x": modX}, "any"},
+		{"include:import-used-above:nested-twice:module", map[string]string{"a": strings.Replace(mod("s1"), " container ca {", " leaf u { type x:tx; } container ca {", 1), "s1": sub("s1", "a", " container cs1;", "s2"), "s2": sub("s2", "a", " container cs2;", "s3"), "s3": sub("s3", "a", " import x { prefix x; } container cs3;"), "x": modX}, "any"},
+		{"include:import-used-above:nested-twice:submodule", map[string]string{"a": mod("s1", "s2", "s3"), "s1": sub("s1", "a", " container cs1 { leaf u { type x:tx; } }", "s2"), "s2": sub("s2", "a", " container cs2;", "s3"), "s3": sub("s3", "a", " import x { prefix x; } container cs3;"), "x": modX}, "any"},
+		{"include:import-used-above:sibling", map[string]string{"a": mod("s1", "s2"), "s1": sub("s1", "a", " container cs1 { leaf u { type x:tx; } }"), "s2": sub("s2", "a", " import x { prefix x; } container cs2;"), "x": modX}, "any"},
 		{"include:cycle", map[string]string{"a": mod("s1", "s2"), "s1": sub("s1", "a", " container cs1;", "s2"), "s2": sub("s2", "a", " container cs2;", "s1")}, "error"},
 		{"include:self", map[string]string{"a": mod("s1"), "s1": sub("s1", "a", " container cs1;", "s1")}, "error"},
 		// include cycles among submodules that belong to the module but that the module's own include
@@ -225,6 +250,32 @@ func includeSets() []modset {
 		{"include:submodule-only-import:typedef-and-identity", map[string]string{"a": mod("s1"), "s1": sub("s1", "a", " import b { prefix b; } identity ia { base b:ib; } container cs1 { leaf x { type b:tb; } leaf r { type identityref { base b:ib; } } }"),
 			"b": "module b { namespace \"urn:b\"; prefix b; typedef tb { type int8; } identity ib; }"}, "ok"},
 		{"include:clash", map[string]string{"a": mod("s1", "s2"), "s1": sub("s1", "a", " container same { leaf x { type string; } }"), "s2": sub("s2", "a", " container same { leaf y { type string; } }")}, "error"},
+	}
+}
+
+// caseSets: names that differ only in the case of their letters are different names (modules,
+// features, typedefs, groupings, identities), with the caller enabling one of two such features.
+func caseSets() []modset {
+	hdr := func(m string) string { return fmt.Sprintf("module %s { namespace \"urn:%s\"; prefix %s;", m, m, m) }
+	return []modset{
+		{Name: "case:modules:feature-states", Expect: "ok", Mods: map[string]string{
+			"Acme": hdr("Acme") + " feature f; leaf x { if-feature f; type string; } }",
+			"acme": hdr("acme") + " feature g; feature f { if-feature g; } leaf y { if-feature f; type string; } }"}},
+		{Name: "case:modules:feature-states:other", Expect: "ok", Mods: map[string]string{
+			"Acme": hdr("Acme") + " feature f; leaf x { if-feature f; type string; } }",
+			"acme": hdr("acme") + " feature g; feature f { if-feature g; } leaf y { if-feature f; type string; } }"}},
+		{Name: "case:features-in-one-module", Expect: "ok", Mods: map[string]string{
+			"a": hdr("a") + " feature f; feature F; leaf x { if-feature f; type string; } leaf y { if-feature F; type string; } }"}},
+		{Name: "case:definitions", Expect: "ok", Mods: map[string]string{
+			"a": hdr("a") + " typedef t { type int8; } typedef T { type string; } grouping g { leaf l { type t; } } grouping G { leaf m { type T; } } identity i; identity I; identity j { base i; } identity J { base I; }" +
+				" container c { uses g; uses G; leaf r { type identityref { base i; } } leaf s { type identityref { base I; } } } }"}},
+		{Name: "case:definitions:cycle-through-the-other-case", Expect: "ok", Mods: map[string]string{
+			"a": hdr("a") + " typedef t { type T; } typedef T { type int8; } grouping g { uses G; } grouping G { leaf m { type t; } } identity i { base I; } identity I; feature f { if-feature F; } feature F;" +
+				" container c { uses g; leaf r { if-feature f; type identityref { base i; } } } }"}},
+		{Name: "case:imported-modules", Expect: "ok", Mods: map[string]string{
+			"a": hdr("a") + " import b { prefix b; } import B { prefix B; } leaf x { type b:t; } leaf y { type B:t; } }",
+			"b": hdr("b") + " typedef t { type int8; } }",
+			"B": hdr("B") + " typedef t { type string; } }"}},
 	}
 }
 
@@ -387,6 +438,7 @@ func allSets(quick bool) []modset {
 	}
 	out = append(out, importSets()...)
 	out = append(out, includeSets()...)
+	out = append(out, caseSets()...)
 	out = append(out, structuralSets()...)
 	if !quick {
 		rels := []string{"typedef", "grouping", "identity", "feature"}
@@ -423,7 +475,7 @@ func outcome(r gen.Result) (verdict, dump string) {
 }
 
 func checkTotal(ms modset) (vs []engine.Violation, base gen.Result, verdict, dump string) {
-	base = gen.Compile(ms.Mods, gen.Options{MapOrder: []int{}})
+	base = gen.Compile(ms.Mods, gen.Options{MapOrder: []int{}, Features: setFeatures[ms.Name]})
 	verdict, dump = outcome(base)
 	mk := func(key, detail string) {
 		vs = append(vs, engine.Violation{Key: key, Witness: ms.Name, Detail: detail, Harness: "set", Replay: engine.JSON(rec{ms, nil})})
@@ -463,7 +515,7 @@ func checkTotal(ms modset) (vs []engine.Violation, base gen.Result, verdict, dum
 var reFeature = regexp.MustCompile(`feature ([a-z0-9]+)`)
 
 func checkOrder(ms modset, choices []int, verdict, dump string) []engine.Violation {
-	r := gen.Compile(ms.Mods, gen.Options{MapOrder: choices})
+	r := gen.Compile(ms.Mods, gen.Options{MapOrder: choices, Features: setFeatures[ms.Name]})
 	mk := func(key, detail string) []engine.Violation {
 		return []engine.Violation{{Key: key, Witness: fmt.Sprintf("%s map-order=%v", ms.Name, choices), Detail: detail, Harness: "order", Replay: engine.JSON(rec{ms, choices})}}
 	}
@@ -521,7 +573,7 @@ func run(c *engine.Ctx) {
 			}
 		}
 		st := engine.ExploreDeviations(b, 200000, func(ch []int) []int {
-			r := gen.Compile(ms.Mods, gen.Options{MapOrder: ch})
+			r := gen.Compile(ms.Mods, gen.Options{MapOrder: ch, Features: setFeatures[ms.Name]})
 			return r.Choices
 		}, func(ch []int) {
 			if len(ch) == 0 {
